@@ -6,6 +6,12 @@ ALL = ["C%02d" % i for i in range(1, 21)]
 
 # id -> (category, technique, text, note, design_ref)
 CHECKS = {
+ "C16": ("model_checking", "deviation-bounded stateless depth-first exploration of the real ConsumerGroup against a simulated group coordinator with a phantom member",
+         "12 configurations (member under test alone or with a phantom member, either as leader; sync/async processor; auto-commit on/off); script start, consume, stop with stop() injectable at every state; deviations: every group error code on JoinGroup/SyncGroup/Heartbeat/OffsetCommit/FindCoordinator/LeaveGroup, silent broker, drop, phantom joins/leaves, eviction, coordinator move, late append, timers and processor completions overtaking I/O; <=1 deviation everywhere and <=2 on a light menu (quick), <=2 / <=3 (thorough). Wire-level monitor: commits carry the latest generation/member and an assigned partition, fetches and processor calls only inside the current assignment, nothing of the old generation pending when JoinGroup is written, one join/sync exchange in flight, heartbeats only while stable, new consumers start from the committed position, after stop() only the leave and graceful commits, and nothing (no request, no timer) after its Deferred fires.",
+         "ref/simgroup.py is the coordinator (one real member + phantom); small scope", "5/C16"),
+ "C17": ("model_checking", "deviation-bounded stateless depth-first exploration with fault-free continuation as a bounded-liveness oracle on the real ConsumerGroup",
+         "A fault is injected at every step of the join protocol (coordinator lookup, topic metadata, join, leader's partition lookup, sync, heartbeat, consumer requests; error codes, silent broker, drop, refused connection, coordinator move, broker restart, phantom joins/leaves, eviction), <=1 fault (+1 schedule deviation) on all and <=2 on a light menu (quick), <=2 / <=3 (thorough), plus 40 transient-outage configurations where the next k metadata / coordinator / join / sync requests are swallowed or rejected; every execution then follows the fault-free default schedule and must reach, within the horizon, a state where the coordinator lists the member in its current generation and its partitions have been consumed, or the start Deferred carries the processor's non-Kafka error; rejoin timers must use a documented backoff.",
+         "ref/simgroup.py is the coordinator; liveness is bounded (600-900 virtual seconds, 600 events)", "5/C17"),
  "C08": ("model_checking", "exhaustive enumeration of metadata-response histories on the real KafkaClient plus deviation-bounded DFS of producer and consumer under cluster events",
          "Every sequence of <=3 (quick, thinned) / <=4 (thorough) steps, each a cluster change from a 12-element family followed by a partial or full metadata load, on a warmed-up 3-broker client: after every answer the public view of covered topics must equal the response, other topics unchanged, vanished partitions not alive, connections to brokers missing from a full refresh closed, new connections at the latest address. Self-healing: real Producer and Consumer explored under every sequence of <=2/<=3 leader moves, broker restarts and address changes injected at every point, with the C01/C02 monitors as the end-to-end oracle and a monitor that a request to an invalidated partition is preceded by a metadata request.",
          "SimCluster's Metadata v0 answers define 'what the response said'; small scope", "5/C08"),
